@@ -187,6 +187,31 @@ def _is_in_lambda_body(node):
     return False
 
 
+def _is_in_nested_scope(node):
+    """
+    Lambda bodies and comprehensions (other than their first iterable) are
+    scopes of their own, but not contexts of the error finder.
+    """
+    child = node
+    node = node.parent
+    while node is not None and node.type not in ('funcdef', 'classdef', 'file_input'):
+        if node.type == 'sync_comp_for' and child is node.children[3]:
+            outer = node
+            while outer.parent.type in ('comp_for', 'sync_comp_for', 'comp_if'):
+                outer = outer.parent
+            if outer is node or outer.type == 'comp_for' and outer.children[-1] is node:
+                # The first iterable is evaluated in the enclosing scope.
+                child, node = outer.parent, outer.parent.parent
+                continue
+        if node.type in ('testlist_comp', 'argument', 'dictorsetmaker') \
+                and node.children[-1].type in _COMP_FOR_TYPES:
+            return True
+        if node.type == 'lambdef' and child is node.children[-1]:
+            return True
+        child, node = node, node.parent
+    return False
+
+
 def _remove_parens(atom):
     """
     Returns the inner part of an expression like `(foo)`. Also removes nested
@@ -317,6 +342,13 @@ class _Context:
         if parent_type == 'argument' and name is name.parent.children[0] \
                 and name.parent.children[1] == '=':
             # The name of a keyword argument is not a variable.
+            return
+        if parent_type == 'namedexpr_test' and name is name.parent.children[0]:
+            # Comprehensions bind those in the enclosing scope.
+            if _is_in_lambda_body(name):
+                return
+        elif _is_in_nested_scope(name):
+            # The names of lambdas and comprehensions are not checked.
             return
         definition = name.get_definition(import_name_always=True)
         if definition is not None and definition.type in ('import_name', 'import_from') \
